@@ -12,6 +12,8 @@ mod d_conn;
 mod d_cors;
 mod d_wire;
 mod d_codec;
+mod d_json;
+mod d_total;
 
 fn main() {
     let args: Vec<String> = std::env::args().collect();
@@ -29,6 +31,8 @@ fn main() {
         "conn" => d_conn::run(&opts),
         "cors" => d_cors::run(&opts),
         "codec" => d_codec::run(&opts),
+        "total" => d_total::run(&opts),
+        "total-child" => d_total::child(&opts),
         "wire-history" => d_wire::history(&opts),
         "wire-conc" => d_wire::conc(&opts),
         "wire-fs" => d_wire::fs(&opts),
